@@ -66,6 +66,7 @@ func c14run(r *kernel.Run) {
 	models := map[c14key]*c02model{}
 	last := map[c14key]uint64{} // last counter seen from that sender (centre of the reference window)
 	var msgs []c14msg
+	anns := map[c14key][]byte{}
 	for si, S := range senders {
 		for gi, g := range groups {
 			rmd, _ := R.md(g)
@@ -91,6 +92,7 @@ func c14run(r *kernel.Run) {
 				return
 			}
 			k := c14key{si, gi}
+			anns[k] = ann
 			models[k] = &c02model{w: uint64(w), opened: map[string]bool{}}
 			models[k].register(uint64(pre))
 			last[k] = uint64(pre + w) // registration centres the reference window on the advanced chain-key counter
@@ -213,6 +215,13 @@ func c14run(r *kernel.Run) {
 				r.Violate("push", "push-refused-but-openable", "push payload of message counter %d (sender %d) is refused although the message is openable through the log and its counter lies inside the reference window around %d (N=%d): %v", m.counter, m.sender, last[k], n, err)
 				return
 			}
+		case a == 8: // the announcement arrives again (every activation of a group replays all announcements of its log)
+			if err := R.st.RegisterChainKey(ctx, g, mustDev(senders[m.sender], g), anns[k]); err != nil {
+				r.Violate("log-path", "log-open-refused-but-openable", "re-delivery of the announcement of sender %d is refused: %v", m.sender, err)
+				return
+			}
+			r.Fault("announcement_redelivered")
+			r.Logf("announcement of s%d g%d delivered again", m.sender, m.group)
 		default:
 			if err := R.restart(); err != nil {
 				r.Infra("restart: %v", err)
